@@ -86,9 +86,10 @@ def state_class_attrs():
 
 
 class Gen:
-    def __init__(self, rng, strict_xsd=True, max_lanelets=6, max_obstacles=5, max_states=8):
+    def __init__(self, rng, strict_xsd=True, max_lanelets=6, max_obstacles=5, max_states=8, three_d=0.0):
         self.r = rng
         self.strict = strict_xsd
+        self.three_d = three_d   # share of specs whose lanelet bounds and planning-problem start positions carry a z coordinate
         self.max_lanelets, self.max_obstacles, self.max_states = max_lanelets, max_obstacles, max_states
         self.X = xsd_enums()
         self.rr = {}
@@ -403,7 +404,8 @@ class Gen:
         # ---- lanelets
         nl = r.choice([1, 2, 3, r.randint(1, self.max_lanelets)])
         lids = [self.new_id() for _ in range(nl)]
-        nsigns = r.choice([0, 1, 1, 2, 3]) if sign_members else 0
+        big = len(sign_members) > 100     # DEU / ZAM: 234 listed ids each, visited round-robin -> more signs per scenario
+        nsigns = (r.choice([1, 2, 3, 3]) if big else r.choice([0, 1, 1, 2, 3])) if sign_members else 0
         nlights = r.choice([0, 1, 1, 2])
         sids = [self.new_id() for _ in range(nsigns)]
         tids = [self.new_id() for _ in range(nlights)]
@@ -444,7 +446,7 @@ class Gen:
         signs = []
         for s in sids:
             els = []
-            for _ in range(r.choice([1, 1, 2, 3])):
+            for _ in range(r.choice([2, 3, 4]) if big else r.choice([1, 1, 2, 3])):
                 nm = self.every("sign:" + country, sign_members)
                 vals = [r.choice(["50", "13.5", "120", "3.5 t", "08:00-16:00", "x"]) for _ in range(r.choice([0, 0, 1, 2]))]
                 els.append({"id": nm, "values": vals})
@@ -543,6 +545,14 @@ class Gen:
             pps.append({"id": self.new_id(), "initial_state": self.initial_state(exact_only=True, planning=True),
                         "goals": goals, "goal_lanelets": goal_lanelets or None})
         spec["pps"] = pps
+        if self.three_d and self.flip(self.three_d):
+            # 3-D geometry (outside the 2-D domain of C01's oracle; used for the model correspondence of <z>)
+            spec["three_d"] = True
+            for ln in spec["lanelets"]:
+                ln["left"] = [p + [self.real(-5, 5)] for p in ln["left"]]
+                ln["right"] = [p + [self.real(-5, 5)] for p in ln["right"]]
+            for p in pps:
+                p["initial_state"]["attrs"]["position"]["pt"].append(self.real(-5, 5))
         return spec
 
     def location(self):
